@@ -1,2 +1,588 @@
-// Package c02 will hold the check for property C02.
+// Package c02 decides C02: the source of a stored message, read through the store, the REST
+// source endpoint, the web UI source endpoint and POP3 RETR, is the server's trace headers
+// followed by exactly the bytes transmitted in DATA (after dot-unstuffing) up to CRLF/LF
+// normalisation; all interfaces agree and every reported size equals the stored length.
 package c02
+
+import (
+	"bytes"
+	"encoding/json"
+	"errors"
+	"fmt"
+	"io"
+	"net"
+	"net/http"
+	"regexp"
+	"strconv"
+	"strings"
+	"time"
+
+	"verifharness/internal/fw"
+	"verifharness/internal/sut"
+)
+
+func init() {
+	fw.Register(&fw.Prop{
+		ID:    "C02",
+		Level: "exploration",
+		Rule: "message bodies generated from (seed, case index) by a segment grammar (printable runs, all 256 byte values, " +
+			"8-bit runs, NUL runs, lines starting with 1-3 dots, lone dot line, dot+CR, bare CR, bare LF, CR CR LF, empty lines, " +
+			"lines of 998/1000 B, 65535/65536/65537 B, 70 KiB, 200 KiB, 1 MiB, multi-MiB bodies, missing final newline, final bare LF, " +
+			"0-byte body, header-less data); case i always contains kind i mod 30, so every kind occurs n/30 times per back end. " +
+			"Each body is sent by an RFC 5321 sender over a real SMTP session to 1-2 recipients (mailbox optionally pre-filled with one " +
+			"message) on the mem and the file store, and every stored copy is read back through Store.Source/Size, REST source, web UI " +
+			"source, POP3 RETR and the sizes of REST list/show, POP3 STAT/LIST/RETR. A case is non-trivial when >=1 copy was stored and " +
+			"read back through all four interfaces; distinct by (back end, header present, set of segment kinds, recipients, pre-fill).",
+		Assumptions: []string{
+			"comparison under C(x) = every run of CRs directly before an LF removed (CRLF/LF normalisation; CR CR LF also equals LF)",
+			"inputs in which a bare LF is immediately followed by '.' are generated and counted, but only their interface agreement and sizes decide, not the transmitted-vs-stored comparison",
+			"a message the server refuses (451 for unparseable headers) is a trivial case; acceptance itself is not part of C02",
+			"sessions run through VerifServeConn on an in-memory net.Conn; HTTP goes through a real loopback httptest server",
+		},
+		MinObs: func(tier string) map[string]int64 {
+			// n/30 cases per kind and back end are generated (150 quick, 500 thorough); minima are set well below.
+			f := int64(1)
+			if tier == "thorough" {
+				f = 5
+			}
+			m := map[string]int64{"copies_checked": 3000 * f, "pop3_retr_ok": 3000 * f, "rest_source_ok": 3000 * f,
+				"webui_source_ok": 3000 * f, "store_source_ok": 3000 * f, "sizes_rest_list": 3000 * f, "sizes_rest_show": 2000 * f,
+				"sizes_pop3_stat": 3000 * f, "sizes_pop3_list": 3000 * f, "sizes_pop3_retr": 3000 * f,
+				"long_line_copies_over_64k": 600 * f, "lfdot_cases": 100 * f, "backend:mem": 3000 * f, "backend:file": 3000 * f,
+				"distinct_nontrivial": 2000 * f}
+			for _, k := range kinds {
+				m["kind:"+k] = 150 * f
+			}
+			return m
+		},
+		Run: run,
+	})
+}
+
+func run(c *fw.Ctx) {
+	n := c.N(4500, 15000)
+	for _, backend := range []string{"mem", "file"} {
+		conf := sut.DefaultConf()
+		conf.SMTP.MaxMessageBytes = 64 << 20
+		if backend == "file" {
+			conf.Storage.Type = "file"
+			conf.Storage.Params = map[string]string{"path": c.TempDir("c02fs")}
+		}
+		we, err := sut.NewWebEnv(conf, backend)
+		if err != nil {
+			panic(err)
+		}
+		hc := &http.Client{Timeout: 5 * time.Minute}
+		c.Cases("body-"+backend, n, func(i int, r *fw.Rand) {
+			runCase(c, we, hc, backend, i, r)
+		})
+		hc.CloseIdleConnections()
+		we.Close()
+	}
+}
+
+type caseCtx struct {
+	c       *fw.Ctx
+	we      *sut.WebEnv
+	hc      *http.Client
+	backend string
+	idx     int
+	msg     *message
+	info    map[string]any
+	hung    bool // a watchdog fired: nothing further in this case is judged
+}
+
+func (k *caseCtx) hang(name, what string) {
+	if !k.hung {
+		k.hung = true
+		k.c.Hang(name, fmt.Sprintf("[%s case %d] %s", k.backend, k.idx, what), "")
+	}
+}
+
+func (k *caseCtx) fail(key, what string, extra map[string]any) {
+	if k.hung {
+		return
+	}
+	d := map[string]any{}
+	for a, b := range k.info {
+		d[a] = b
+	}
+	for a, b := range extra {
+		d[a] = b
+	}
+	k.c.Violation(key, fmt.Sprintf("[%s case %d kinds=%v len=%d] %s", k.backend, k.idx, k.msg.kindSet, len(k.msg.data), what), d)
+}
+
+var helos = []string{"client.test", "mx1.sender.example", "[192.0.2.7]", "localhost"}
+
+func runCase(c *fw.Ctx, we *sut.WebEnv, hc *http.Client, backend string, idx int, r *fw.Rand) {
+	forced := kinds[idx%len(kinds)]
+	msg := genMessage(r, forced, c.Quick())
+	k := &caseCtx{c: c, we: we, hc: hc, backend: backend, idx: idx, msg: msg}
+	helo := r.Pick(helos)
+	sender := "sender" + strconv.Itoa(r.Intn(1000)) + "@origin.test"
+	if r.Chance(1, 20) {
+		sender = ""
+	}
+	nrcpt := 1
+	if r.Chance(1, 4) {
+		nrcpt = 2
+	}
+	prefill := r.Chance(1, 4)
+	var boxes []string
+	for j := 0; j < nrcpt; j++ {
+		boxes = append(boxes, fmt.Sprintf("c%d%c%s", idx, 'a'+j, backend[:1]))
+	}
+	k.info = map[string]any{"backend": backend, "kinds": msg.kindSet, "helo": helo, "sender": sender, "mailboxes": boxes,
+		"prefill": prefill, "data_len": len(msg.data), "data_head": fw.Trunc(string(msg.data), 600), "lfdot": msg.lfdot}
+	for _, kd := range msg.kindSet {
+		c.Count("kind:"+kd, 1)
+	}
+	c.Count("backend:"+backend, 1)
+	c.Max("max_data_bytes", int64(len(msg.data)))
+	c.Max("max_line_bytes", int64(msg.maxLine))
+	if msg.lfdot {
+		c.Count("lfdot_cases", 1)
+	}
+	defer func() {
+		for _, b := range boxes {
+			_ = we.Store.PurgeMessages(b)
+		}
+	}()
+
+	// The sender: append CRLF if missing, dot-stuff, terminate.  The receiver-side inverse of
+	// the harness must give back exactly the data (plus the appended CRLF): a harness self-check.
+	wire := sut.DotStuff(msg.data)
+	sent := msg.data
+	if !bytes.HasSuffix(sent, []byte("\r\n")) {
+		sent = append(append([]byte{}, sent...), '\r', '\n')
+	}
+	if back, ok := unstuff(wire); !ok || !bytes.Equal(back, sent) {
+		panic(fmt.Sprintf("harness: DotStuff/unstuff disagree on case %d", idx))
+	}
+
+	ss := we.StartSMTP()
+	ss.Watchdog = 120 * time.Second * time.Duration(c.Slow)
+	defer func() {
+		if !ss.Ended() && !ss.Close() {
+			c.Hang("smtp-session-end", "SMTP session did not end after the client closed", "")
+		}
+	}()
+	if rs, mal, _, ok := ss.Step(nil); !ok {
+		k.hang("smtp-greeting", "no output and no idle point after connecting")
+		return
+	} else if mal != "" || len(rs) != 1 || rs[0].Code != 220 {
+		k.fail("C02:smtp-dialogue", "no single 220 greeting", map[string]any{"trace": ss.Trace})
+		return
+	}
+	cmd := func(line string, want int) bool {
+		rep, err := ss.Cmd(line)
+		if err != nil && strings.HasPrefix(err.Error(), "watchdog:") {
+			k.hang("smtp-command", err.Error())
+			return false
+		}
+		if err != nil || rep.Code != want {
+			k.fail("C02:smtp-dialogue", fmt.Sprintf("%q answered %v %v, expected %d", line, rep, err, want), map[string]any{"trace": ss.Trace})
+			return false
+		}
+		return true
+	}
+	if !cmd("EHLO "+helo, 250) {
+		return
+	}
+	pre := 0
+	if prefill {
+		// one earlier message in every target mailbox, so that the copy under test is number 2
+		if !cmd("MAIL FROM:<filler@origin.test>", 250) {
+			return
+		}
+		for _, b := range boxes {
+			if !cmd("RCPT TO:<"+b+"@inbucket.test>", 250) {
+				return
+			}
+		}
+		if !cmd("DATA", 354) {
+			return
+		}
+		if !cmd("Subject: filler\r\n\r\nfiller "+r.Letters(r.Range(0, 50), textual)+"\r\n.", 250) {
+			return
+		}
+		pre = 1
+	}
+	if !cmd("MAIL FROM:<"+sender+">", 250) {
+		return
+	}
+	for _, b := range boxes {
+		if !cmd("RCPT TO:<"+b+"@inbucket.test>", 250) {
+			return
+		}
+	}
+	if !cmd("DATA", 354) {
+		return
+	}
+	replies, mal, _, ok := ss.Step(wire)
+	if !ok {
+		k.hang("smtp-data", "session neither idle nor closed after the data block")
+		return
+	}
+	if msg.lfdot {
+		k.lfdotCase(replies, boxes, pre, helo, sender, sent)
+		return
+	}
+	if mal != "" || len(replies) != 1 {
+		var rs []string
+		for _, rp := range replies {
+			rs = append(rs, rp.String())
+		}
+		k.fail("C02:data-block-desync", fmt.Sprintf("%d replies (malformed=%q) to one RFC 5321 data block: %v", len(replies), mal, rs), nil)
+		return
+	}
+	if replies[0].Code != 250 {
+		c.Count("refused:"+strconv.Itoa(replies[0].Code), 1)
+		if msg.header {
+			c.Count("refused_with_header", 1)
+		}
+		// Nothing may be stored for a refused message (checked by C01/C03); trivial here.
+		return
+	}
+	c.Count("accepted", 1)
+	all := true
+	for _, b := range boxes {
+		if !k.checkCopy(b, pre, helo, sender, sent, true) {
+			all = false
+		}
+	}
+	if all {
+		c.NonTrivial(fmt.Sprintf("%s|h=%v|%s|r=%d|p=%v", backend, msg.header, strings.Join(msg.kindSet, ","), len(boxes), prefill))
+		c.Sample(map[string]any{"backend": backend, "kinds": msg.kindSet, "data_len": len(msg.data), "max_line": msg.maxLine,
+			"recipients": len(boxes), "prefill": prefill})
+	}
+}
+
+// lfdotCase handles inputs containing a bare LF directly followed by '.'.  What the server
+// should store is reading-dependent (see DESIGN, Not demanded), so the transmitted-vs-stored
+// comparison is only counted.  Whatever was stored must still read back identically through
+// every interface, which does not depend on the reading.
+func (k *caseCtx) lfdotCase(replies []sut.Reply, boxes []string, pre int, helo, sender string, sent []byte) {
+	c := k.c
+	if len(replies) != 1 {
+		c.Count("lfdot_outcome:desync", 1)
+	} else {
+		c.Count("lfdot_outcome:reply-"+strconv.Itoa(replies[0].Code), 1)
+	}
+	if len(replies) == 0 || replies[0].Code != 250 {
+		return
+	}
+	for _, b := range boxes {
+		ms, err := k.we.Store.GetMessages(b)
+		if err != nil || len(ms) != pre+1 {
+			c.Count("lfdot_outcome:not-stored-as-one", 1)
+			continue
+		}
+		k.checkCopy(b, pre, helo, sender, sent, false)
+	}
+}
+
+var dateRE = `[^\n]*`
+
+// checkCopy reads the newest message of mailbox through every interface.  decide=false skips
+// the transmitted-vs-stored comparison (counted instead).
+func (k *caseCtx) checkCopy(box string, pre int, helo, sender string, sent []byte, decide bool) bool {
+	c, we := k.c, k.we
+	ms, err := we.Store.GetMessages(box)
+	if err != nil {
+		k.fail("C02:store-unreadable", fmt.Sprintf("GetMessages(%q): %v", box, err), nil)
+		return false
+	}
+	if len(ms) != pre+1 {
+		k.fail("C02:accepted-but-not-stored", fmt.Sprintf("mailbox %q holds %d messages after a 250, expected %d", box, len(ms), pre+1), nil)
+		return false
+	}
+	m := ms[pre]
+	id := m.ID()
+	rd, err := m.Source()
+	if err != nil {
+		k.fail("C02:store-source", fmt.Sprintf("Source() of %s/%s: %v", box, id, err), nil)
+		return false
+	}
+	src, err := io.ReadAll(rd)
+	_ = rd.Close()
+	if err != nil {
+		k.fail("C02:store-source", fmt.Sprintf("reading Source() of %s/%s: %v", box, id, err), nil)
+		return false
+	}
+	good := true
+	bad := func(key, what string, extra map[string]any) {
+		good = false
+		k.fail(key, what, extra)
+	}
+	if m.Size() != int64(len(src)) {
+		bad("C02:store-size", fmt.Sprintf("Size()=%d but Source() has %d bytes (%s/%s)", m.Size(), len(src), box, id), nil)
+	}
+	csrc := normC(src)
+	// (1) stored source = trace headers + transmitted data, under C.
+	re := regexp.MustCompile(`^Return-Path: <` + regexp.QuoteMeta(sender) + `>\nReceived: from ` + regexp.QuoteMeta(helo) +
+		` \(\[127\.0\.0\.1\]\) by inbucket\.test\n  for <` + regexp.QuoteMeta(box) + `>; ` + dateRE + `\n`)
+	loc := re.FindIndex(csrc)
+	if loc == nil {
+		bad("C02:trace-headers", fmt.Sprintf("stored source of %s/%s does not start with the expected Return-Path/Received lines: %s",
+			box, id, fw.Q(string(src))), nil)
+	} else {
+		rest := csrc[loc[1]:]
+		want := normC(sent)
+		eq := bytes.Equal(rest, want)
+		if decide {
+			if !eq {
+				at, a, b := firstDiff(rest, want)
+				bad("C02:store-content", fmt.Sprintf("stored source of %s/%s differs from the transmitted data at normalised offset %d (stored %d bytes, transmitted %d): stored %q, transmitted %q",
+					box, id, at, len(rest), len(want), a, b), nil)
+			} else {
+				c.Count("store_source_ok", 1)
+				c.Count("bytes_compared", int64(len(want)))
+			}
+		} else if eq {
+			c.Count("lfdot_outcome:stored-equal", 1)
+		} else {
+			c.Count("lfdot_outcome:stored-differs", 1)
+		}
+	}
+	over64k := k.msg.maxLine > 65536
+
+	// (2) REST source and web UI source.
+	for _, ep := range []struct{ name, url string }{
+		{"rest", we.Base + "/api/v1/mailbox/" + box + "/" + id + "/source"},
+		{"webui", we.Base + "/serve/mailbox/" + box + "/" + id + "/source"},
+	} {
+		status, body, err := k.get(ep.url)
+		if err != nil || status != 200 {
+			bad("C02:"+ep.name+"-source", fmt.Sprintf("GET %s: status %d err %v", ep.url, status, err), nil)
+			continue
+		}
+		if !bytes.Equal(normC(body), csrc) {
+			at, a, b := firstDiff(normC(body), csrc)
+			bad("C02:"+ep.name+"-source", fmt.Sprintf("GET %s returns %d bytes, store has %d; first difference at normalised offset %d: http %q, store %q",
+				ep.url, len(body), len(src), at, a, b), nil)
+			continue
+		}
+		c.Count(ep.name+"_source_ok", 1)
+	}
+
+	// (3) sizes in REST list and show.
+	if status, body, err := k.get(we.Base + "/api/v1/mailbox/" + box); err != nil || status != 200 {
+		bad("C02:rest-list", fmt.Sprintf("GET mailbox list %s: status %d err %v", box, status, err), nil)
+	} else {
+		var l []struct {
+			ID   string `json:"id"`
+			Size int64  `json:"size"`
+		}
+		if err := json.Unmarshal(body, &l); err != nil {
+			bad("C02:rest-list", fmt.Sprintf("mailbox list %s is not the documented JSON: %v", box, err), nil)
+		} else {
+			found := false
+			for _, e := range l {
+				if e.ID == id {
+					found = true
+					if e.Size != int64(len(src)) {
+						bad("C02:rest-list-size", fmt.Sprintf("REST list reports size %d for %s/%s, stored source has %d bytes", e.Size, box, id, len(src)), nil)
+					} else {
+						c.Count("sizes_rest_list", 1)
+					}
+				}
+			}
+			if !found {
+				bad("C02:rest-list", fmt.Sprintf("REST list of %s does not contain stored message %s", box, id), nil)
+			}
+		}
+	}
+	if status, body, err := k.get(we.Base + "/api/v1/mailbox/" + box + "/" + id); err != nil {
+		bad("C02:rest-show", fmt.Sprintf("GET message %s/%s: %v", box, id, err), nil)
+	} else if status != 200 {
+		// MIME parsing of arbitrary bytes may fail; that is not part of this property.
+		c.Count("rest_show_unavailable:"+strconv.Itoa(status), 1)
+	} else {
+		var e struct {
+			Size *int64 `json:"size"`
+		}
+		if err := json.Unmarshal(body, &e); err != nil || e.Size == nil {
+			c.Count("rest_show_unparseable", 1)
+		} else if *e.Size != int64(len(src)) {
+			bad("C02:rest-show-size", fmt.Sprintf("REST show reports size %d for %s/%s, stored source has %d bytes", *e.Size, box, id, len(src)), nil)
+		} else {
+			c.Count("sizes_rest_show", 1)
+		}
+	}
+
+	// (4) POP3.
+	if !k.pop3(box, pre, src, csrc, bad) {
+		good = false
+	}
+	if good {
+		c.Count("copies_checked", 1)
+		if over64k {
+			c.Count("long_line_copies_over_64k", 1)
+		}
+	}
+	return good
+}
+
+func (k *caseCtx) get(url string) (int, []byte, error) {
+	resp, err := k.hc.Get(url)
+	if err == nil {
+		defer resp.Body.Close()
+		var b []byte
+		b, err = io.ReadAll(resp.Body)
+		if err == nil {
+			return resp.StatusCode, b, nil
+		}
+	}
+	var ne net.Error
+	if errors.As(err, &ne) && ne.Timeout() {
+		// the generous client timeout is a watchdog, not an observation
+		k.hang("http-get", "GET "+url+": "+err.Error())
+	}
+	return 0, nil, err
+}
+
+var (
+	statRE = regexp.MustCompile(`^\+OK (\d+) (\d+)$`)
+	listRE = regexp.MustCompile(`^\+OK (\d+) (\d+)$`)
+	retrRE = regexp.MustCompile(`^\+OK (\d+) `)
+)
+
+func (k *caseCtx) pop3(box string, pre int, src, csrc []byte, bad func(key, what string, extra map[string]any)) bool {
+	c := k.c
+	ps := k.we.StartPOP3()
+	ps.Watchdog = 120 * time.Second * time.Duration(c.Slow)
+	defer func() {
+		if !ps.Ended() && !ps.Close() {
+			c.Hang("pop3-session-end", "POP3 session did not end after the client closed", "")
+		}
+	}()
+	okAll := true
+	fail := func(key, what string) {
+		okAll = false
+		bad(key, what, map[string]any{"pop3_trace": ps.Trace})
+	}
+	if rep, _, ok := ps.Step(nil); !ok {
+		k.hang("pop3-greeting", "no output and no idle point after connecting")
+		return false
+	} else if !rep.OK || rep.Multi {
+		fail("C02:pop3-dialogue", "no +OK greeting")
+		return false
+	}
+	single := func(line string) (sut.POP3Reply, bool) {
+		rep, err := ps.Cmd(line)
+		if err != nil {
+			k.hang("pop3-command", err.Error())
+			return rep, false
+		}
+		if rep.Malformed != "" || !rep.OK || rep.Multi {
+			fail("C02:pop3-dialogue", fmt.Sprintf("%q answered %s", line, fw.Q(string(rep.Raw))))
+			return rep, false
+		}
+		return rep, true
+	}
+	if _, ok := single("USER " + box); !ok {
+		return false
+	}
+	if _, ok := single("PASS x"); !ok {
+		return false
+	}
+	n := pre + 1
+	// Sizes of all messages in the mailbox as the store reports them.
+	var total int64
+	var sizes []int64
+	cur, err := k.we.Store.GetMessages(box)
+	if err != nil || len(cur) != n {
+		fail("C02:store-unreadable", fmt.Sprintf("GetMessages(%q) changed under the check: %d messages, err %v", box, len(cur), err))
+		return false
+	}
+	for _, m := range cur {
+		sizes = append(sizes, m.Size())
+		total += m.Size()
+	}
+	if rep, ok := single("STAT"); ok {
+		mm := statRE.FindStringSubmatch(rep.First)
+		if mm == nil {
+			fail("C02:pop3-dialogue", "STAT answered "+fw.Q(rep.First))
+		} else if mm[1] != strconv.Itoa(n) || mm[2] != strconv.FormatInt(total, 10) {
+			fail("C02:pop3-stat-size", fmt.Sprintf("STAT answered %q, the store holds %d messages of %d bytes in %s", rep.First, n, total, box))
+		} else {
+			c.Count("sizes_pop3_stat", 1)
+		}
+	} else {
+		return false
+	}
+	if rep, ok := single("LIST " + strconv.Itoa(n)); ok {
+		mm := listRE.FindStringSubmatch(rep.First)
+		if mm == nil || mm[1] != strconv.Itoa(n) || mm[2] != strconv.Itoa(len(src)) {
+			fail("C02:pop3-list-size", fmt.Sprintf("LIST %d answered %q, stored source has %d bytes", n, rep.First, len(src)))
+		} else {
+			c.Count("sizes_pop3_list", 1)
+		}
+	} else {
+		return false
+	}
+	// Multi-line LIST.
+	rep, err := ps.Cmd("LIST")
+	if err != nil {
+		k.hang("pop3-command", err.Error())
+		return false
+	}
+	if rep.Malformed != "" || !rep.OK || !rep.Terminated || len(rep.Extra) > 0 || len(rep.Body) != n {
+		fail("C02:pop3-dialogue", "LIST answered "+fw.Q(string(rep.Raw)))
+	} else {
+		for j, l := range rep.Body {
+			if string(l) != fmt.Sprintf("%d %d", j+1, sizes[j]) {
+				fail("C02:pop3-list-size", fmt.Sprintf("LIST line %d is %q, store reports size %d", j+1, l, sizes[j]))
+			}
+		}
+		if okAll {
+			c.Count("sizes_pop3_listing", 1)
+		}
+	}
+	// RETR.
+	rep, err = ps.Cmd("RETR " + strconv.Itoa(n))
+	if err != nil {
+		k.hang("pop3-command", err.Error())
+		return false
+	}
+	switch {
+	case rep.Malformed != "" || !rep.OK:
+		fail("C02:pop3-retr", fmt.Sprintf("RETR %d answered %s", n, fw.Q(string(rep.Raw))))
+	case !rep.Terminated:
+		fail("C02:pop3-retr", fmt.Sprintf("RETR %d: multi-line response not terminated by a lone dot (%d bytes of output)", n, len(rep.Raw)))
+	default:
+		got := normC(rep.BodyBytes())
+		if !bytes.Equal(got, csrc) {
+			at, a, b := firstDiff(got, csrc)
+			key := "C02:pop3-retr"
+			if k.msg.maxLine > 65535 {
+				key = "C02:pop3-retr-long-line"
+			}
+			fail(key, fmt.Sprintf("RETR %d of %s returns %d normalised bytes, the store has %d; first difference at offset %d: pop3 %q, store %q",
+				n, box, len(got), len(csrc), at, a, b))
+		}
+		if len(rep.Extra) > 0 {
+			fail("C02:pop3-stray-output", fmt.Sprintf("RETR %d: output after the terminating dot: %s", n, fw.Q(string(rep.Extra))))
+		}
+		mm := retrRE.FindStringSubmatch(rep.First)
+		if mm == nil || mm[1] != strconv.Itoa(len(src)) {
+			fail("C02:pop3-retr-size", fmt.Sprintf("RETR %d announced %q, stored source has %d bytes", n, rep.First, len(src)))
+		} else {
+			c.Count("sizes_pop3_retr", 1)
+		}
+		if okAll {
+			c.Count("pop3_retr_ok", 1)
+		}
+	}
+	// The session must still be usable and in step after the retrieval.
+	if rep, err := ps.Cmd("NOOP"); err != nil {
+		k.hang("pop3-command", err.Error())
+		return false
+	} else if !rep.OK || rep.Multi {
+		fail("C02:pop3-stray-output", fmt.Sprintf("NOOP after RETR answered %s (%v)", fw.Q(string(rep.Raw)), err))
+	}
+	// Leave without QUIT: no deletions are committed.
+	return okAll
+}
